@@ -454,14 +454,40 @@ theorem destructor_exactly_once {s s' : State} (hr : Reach s) :
     obtain ⟨n, _, _, _, _, hp, rfl⟩ := setLocal_ok hs
     simp [notifyOld, setCallsNotifier]
 
-/-- no other event calls a notifier -/
+/-- no other event calls a notifier — except, under a fault, a `replace_local` whose native store fails (`storeFail`,
+    see `replace_setspecific_failure_destroys_twice`) -/
 theorem destructor_only_then {s s' : State} {e : Ev} (hs : step s e = .ok s')
-    (h1 : ∀ t k v, e ≠ .replaceLocal t k v) (h2 : ∀ t, e ≠ .threadEnd t) : s'.dtorLog = s.dtorLog := by
+    (h1 : ∀ t k v, e ≠ .replaceLocal t k v) (h2 : ∀ t, e ≠ .threadEnd t) (h4 : ∀ t k r, e ≠ .storeFail t k r) :
+    s'.dtorLog = s.dtorLog := by
   by_cases h3 : ∃ t k v, e = .setLocal t k v
   · obtain ⟨t, k, v, rfl⟩ := h3
     obtain ⟨n, _, _, _, _, hp, rfl⟩ := setLocal_ok hs
     simp [notifyOld, setCallsNotifier]
-  · exact dtorLog_frame hs h1 h2 (fun t k v e' => h3 ⟨t, k, v, e'⟩)
+  · exact dtorLog_frame hs h1 h2 (fun t k v e' => h3 ⟨t, k, v, e'⟩) h4
+
+/-- **observation about the code as it is** (a fault outside C05's quantifier: `pthread_setspecific` reporting an error):
+    `p_uthread_replace_local` passes the old non-NULL value to the notifier BEFORE it stores the new one; when the store fails
+    the destroyed value stays in the slot, and if the thread then leaves its function and ends, the notifier is called with
+    that same value a second time.  `p_uthread_set_local` with a failing store is a no-op (no notifier). -/
+theorem replace_setspecific_failure_destroys_twice {s s1 s2 s3 : State} {t k : Nat} (hr : Reach s)
+    (hs : step s (.storeFail t k true) = .ok s1) (hv : valueOf s t k ≠ 0) (hn : (s.key k).notifier = true)
+    (h2 : step s1 (.ret t) = .ok s2) (h3 : step s2 (.threadEnd t) = .ok s3) :
+    s1.dtorLog = s.dtorLog ++ [(t, k, valueOf s t k)] ∧ valueOf s1 t k = valueOf s t k ∧
+    ∃ L, s3.dtorLog = s1.dtorLog ++ L ∧ (t, k, valueOf s t k) ∈ L := by
+  have hr1 : Reach s1 := .step _ hr hs
+  have hr2 : Reach s2 := .step _ hr1 h2
+  obtain ⟨n, _, hk0, _, hwf, hp, rfl⟩ := storeFail_ok hs
+  obtain ⟨_, _, rfl⟩ := ret_ok h2
+  rw [valueOf_pub hp] at hv
+  refine ⟨by simp [notifyOld, replaceCallsNotifier, valueOf_pub hp, hv, hn], rfl, ?_⟩
+  obtain ⟨L, e1, _, e3, _⟩ := (destructor_exactly_once hr2).2.1 t h3
+  refine ⟨L, e1, (e3 t k _).mpr ⟨rfl, hn, hwf, ?_, rfl⟩⟩
+  simpa [valueOf_pub hp] using hv
+
+/-- `p_uthread_set_local` whose native store fails changes nothing at all -/
+theorem set_setspecific_failure_is_noop {s s' : State} {t k : Nat} (hs : step s (.storeFail t k false) = .ok s') : s' = s := by
+  obtain ⟨n, _, _, _, _, _, rfl⟩ := storeFail_ok hs
+  simp [notifyOld, setCallsNotifier]
 
 /-! ## lazy creation of the native key -/
 
@@ -848,6 +874,14 @@ example : (match run init [.createBegin 0 true false, .createEnd 0, .startUnstor
     | .ok s => step s (.ret 1) | .error e => .error e) = .error .notEnabled := by rfl
 example : (match run init [.createBegin 0 true false, .createEnd 0, .keyCreate 1 0, .keyCas 1 0, .start 1] with
     | .ok s => step s (.retUnstored 1 0) | .error e => .error e) = .error .notEnabled := by rfl
+
+/-- the witness for `replace_setspecific_failure_destroys_twice`: thread 1 stores 5 under a key with a notifier; its
+    `replace_local (6)` fails in the native store: the notifier has run for 5, the slot still holds 5 (`get` reads 5); at the
+    thread's end the notifier runs for 5 again -/
+example : (match run init [.localNew 0 true, .createBegin 0 true false, .createEnd 0, .keyCreate 1 0, .keyCas 1 0, .start 1,
+      .keyCreate 1 1, .keyCas 1 1, .setLocal 1 1 5, .storeFail 1 1 true, .getLocal 1 1, .storeFail 1 1 false, .ret 1, .threadEnd 1] with
+    | .ok s => some (s.dtorLog.filter (fun x => x.2.1 ≠ 0), s.getLog)
+    | .error _ => none) = some ([(1, 1, 5), (1, 1, 5)], [(1, 1, 5)]) := by rfl
 
 /-- a key released with `p_uthread_local_free` while a thread still holds a value under it: the native key is
     deleted and its block freed once, and the thread's end calls no notifier for the dropped value 5 (only the
